@@ -65,7 +65,7 @@ def run(ctx):
                               "2- and 3-way data partitions, a data superset, all clause permutations)")
     env = pc.probe()
     findings = pc.open_findings("C14")
-    n = 1200 if ctx.tier == "thorough" else 45
+    n = 400 if ctx.tier == "thorough" else 45
     rows = pc.hquery(["-mode", "gen", "-family", "c14", "-n", str(n), "-seed", str(ctx.seed)])
     ev = pc.use_written(ctx, [r for r in rows if r.get("eval") and pc.modelable(r)])
     verd = pc.evaluate(ctx, "cases_c14", ev, env)
